@@ -235,9 +235,62 @@ def _serial_calls(r, thorough):
     return calls
 
 
+def _apalache(sc, cinit, inv, timeout=300):
+    """One symbolic run of SerialApa.tla (length 0: the invariant over all initial states, i.e.
+    over all integer triples below the modulus).  Returns (holds, counterexample state or None)."""
+    import glob
+    import json as _json
+    import shutil as _sh
+    exe = _sh.which("apalache-mc")
+    if exe is None:
+        return None, None
+    out = os.path.join(sc.dir, "apa_%s_%s" % (cinit, inv))
+    rc, txt, _, timed_out = T._run([exe, "check", "--cinit=" + cinit, "--inv=" + inv, "--length=0",
+                                    "--out-dir=" + out, "SerialApa.tla"], sc.dir, timeout,
+                                   env={"JVM_ARGS": "-Xmx2g", "TMPDIR": sc.dir})   # the launcher puts its SANY temp dir under $TMPDIR
+    if timed_out:
+        raise T.MachineryError("apalache timed out on %s/%s" % (cinit, inv))
+    if "The outcome is: NoError" in txt:
+        return True, None
+    if "The outcome is: Error" in txt:
+        cex = None
+        for f in sorted(glob.glob(os.path.join(out, "*", "*", "violation.itf.json")) +
+                        glob.glob(os.path.join(out, "*", "*", "violation1.itf.json"))):
+            st = _json.load(open(f))["states"][-1]
+            cex = {k: int(v["#bigint"]) if isinstance(v, dict) else int(v) for k, v in st.items() if k in ("a", "b", "d")}
+            break
+        return False, cex
+    raise T.MachineryError("apalache gave no verdict on %s/%s\n%s" % (cinit, inv, txt[-1200:]))
+
+
+def _serial_symbolic(sc):
+    """C17 lemmas for the real moduli 2^16 and 2^32, all operand pairs (SerialApa.tla, Apalache/SMT);
+    the counter-examples of the two witness invariants are returned as operand pairs for the real code."""
+    from concurrent.futures import ThreadPoolExecutor
+    jobs = [("CInit16", "AllLemmas"), ("CInit32", "AllLemmas"), ("CInit32", "W_NumericOrder"),
+            ("CInit32", "W_TotalEverywhere"), ("CInit16", "W_NumericOrder")]
+    with ThreadPoolExecutor(max_workers=len(jobs)) as ex:
+        res = list(ex.map(lambda j: _apalache(sc, *j), jobs))
+    if res[0][0] is None:
+        return {"serial_symbolic": "apalache-mc not found: lemmas decided for the small modulus by TLC only"}, []
+    pairs = []
+    for (cinit, inv), (holds, cex) in zip(jobs, res):
+        if inv == "AllLemmas" and not holds:
+            raise T.MachineryError("SerialApa.tla: lemmas refuted for %s: %r" % (cinit, cex))
+        if inv != "AllLemmas":
+            if holds or cex is None:
+                raise T.MachineryError("SerialApa.tla: witness %s not refuted for %s" % (inv, cinit))
+            pairs.append((32 if cinit == "CInit32" else 16, cex["a"], cex["b"]))
+    return {"serial_symbolic": "Apalache: AllLemmas (formula = reference order, antisymmetry, consistency with addition, "
+                               "totality and transitivity below half, origin freedom) hold for ALL operand triples at M = 2^16 "
+                               "and M = 2^32; witnesses W_NumericOrder / W_TotalEverywhere refuted",
+            "serial_symbolic_counterexample_pairs": [list(p) for p in pairs]}, pairs
+
+
 def _serial_stage(rep, thorough):
     r = random.Random(seed() * 31 + 17)
     with T.Scratch() as sc:
+        sym_cov, sym_pairs = _serial_symbolic(sc)
         res = T.tlc(sc, "Serial", SERIAL_CFG % (1024 if thorough else 256), workers=8, timeout=600)
         if res.violated or not res.complete:
             raise T.MachineryError("Serial.tla lemmas failed: %s\n%s" % (res.violated, res.out[-800:]))
@@ -246,6 +299,16 @@ def _serial_stage(rep, thorough):
         if "W_NoWrapCase" not in wit.violated:
             raise T.MachineryError("Serial.tla: wrap witness not reached")
         calls = _serial_calls(r, thorough)
+        # spec -> code: the solver's wrap-point / antipode counter-examples go through the real functions
+        from aiortc import utils as _u
+        for bits, a, b in sym_pairs:
+            for x, y in ((a, b), (b, a)):
+                if bits == 16:
+                    calls.append({"fn": "uint16_gt", "a": x, "b": y, "res": bool(_u.uint16_gt(x, y))})
+                    calls.append({"fn": "uint16_gte", "a": x, "b": y, "res": bool(_u.uint16_gte(x, y))})
+                else:
+                    calls.append({"fn": "uint32_gt", "a": _limbs(x), "b": _limbs(y), "res": bool(_u.uint32_gt(x, y))})
+                    calls.append({"fn": "uint32_gte", "a": _limbs(x), "b": _limbs(y), "res": bool(_u.uint32_gte(x, y))})
         size = 20000
         batches = [{"id": i + 1, "calls": calls[k:k + size]} for i, k in enumerate(range(0, len(calls), size))]
         val, verdicts = T.validate_traces(sc, "TraceSerial", "SPECIFICATION TraceSpec\nCHECK_DEADLOCK FALSE\n",
@@ -264,7 +327,7 @@ def _serial_stage(rep, thorough):
         if v != "ok":
             c = b["calls"][pos - 1]
             rep.violation(v, {"clause": v, "fn": c["fn"]}, {"call": c}, {"serial_call": c})
-    return {"serial_model_states": res.distinct, "serial_modulus_exhaustive": 1024 if thorough else 256,
+    return {**sym_cov, "serial_model_states": res.distinct, "serial_modulus_exhaustive": 1024 if thorough else 256,
             "serial_calls_validated": len(calls), "serial_16bit_first_operand_exhaustive": bool(thorough)}
 
 
